@@ -37,7 +37,7 @@
       dissimilarities) are rejected. *)
 From Coq Require Import Reals QArith String List Bool.
 From OPF Require Import Spec.MetricSpec Model.MetricIR Gen.Metrics_gen Model.MetricRnd Model.MetricSym
-     Proofs.FloatSym Proofs.FloatZero Proofs.FloatTable Proofs.FloatZeroNeg.
+     Proofs.FloatSym Proofs.FloatZero Proofs.FloatTable Proofs.FloatZeroNeg Proofs.FloatNonneg.
 Import ListNotations.
 Open Scope string_scope.
 Open Scope R_scope.
@@ -232,6 +232,30 @@ Proof. exact cosine_zero_model_limit. Qed.
 Theorem C08_float_chord_model_limit :
   exists rnd, rounding rnd /\ rnd 1 = 1 /\ all_pos [1] /\ metric_rnd rnd ir_chord [1] [1] <> Some 0.
 Proof. exact chord_zero_model_limit. Qed.
+
+(* ---------------- non-negativity under every admissible rounding ---------------- *)
+(* 31 identifiers: the sign-class interpreter bounds the result by NonNeg/Pos, so the rounded evaluation is
+   defined and >= 0 whatever the (monotone, sign-preserving) rounding does; user-level classes as above *)
+Theorem C08_float_nonneg : forallb nonneg_result float_nonneg_list = true.
+Proof. exact float_nonneg_tbl. Qed.
+
+Theorem C08_float_nonneg_all : forall nc, In nc float_nonneg_list ->
+  exists m, lookup_ir (fst nc) all_metrics_ir = Some m /\
+  forall rnd, rounding rnd ->
+  forall x y, length x = length y -> (1 <= length x)%nat ->
+              Forall (in_cls (snd nc)) x -> Forall (in_cls (snd nc)) y ->
+  exists r, metric_rnd rnd m x y = Some r /\ 0 <= r.
+Proof. exact float_nonneg_all. Qed.
+
+(* the 13 accepted identifiers whose sign the four-point lattice cannot bound (a logarithm needs "argument >= 1") *)
+Theorem C08_float_nonneg_unknown : map result_class float_nonneg_unknown = repeat (Some Any) 13.
+Proof. exact float_nonneg_unknown_tbl. Qed.
+
+Theorem C08_float_nonneg_nonvacuous :
+  In ("squared_distance"%string, NonNeg) float_nonneg_list /\ rounding (fun a : R => a) /\
+  length [0; 2] = length [1; 0] /\ (1 <= length [0; 2])%nat /\
+  Forall (in_cls NonNeg) [0; 2] /\ Forall (in_cls NonNeg) [1; 0].
+Proof. exact float_nonneg_example. Qed.
 
 (* ---------------- non-vacuity ---------------- *)
 (* the identity and the plateau rounding [rndS] are admissible and odd; manhattan([1;2],[3;5]) = 5 *)
